@@ -505,21 +505,45 @@ func runR11_4(c *Ctx, registered *R) {
 			r.OK(fnKey(f)+"/nested-batch", f.Pos(), "receiveBatch is not reachable from the handling of the messages inside a batch")
 		}
 	}
-	// duplicate open is NonOK
+	// duplicate open is NonOK: in receiveOpen, or in the unexported helper that inserts for it (conn.addOpened), the
+	// exits behind GetOrSet's exists == true return a NonOK status; the handler is started only where exists == false
+	// is established (directly, or by the OK status of that helper)
 	if g := r.Need("mpx", "conn.receiveOpen"); g != nil {
 		found := false
-		for _, ret := range returnsOf(g) {
-			for _, cd := range pathConds(ret.Block()) {
-				if ex, ok := cd.V.(*ssa.Extract); ok && cd.Truth {
-					if call, ok := ex.Tuple.(*ssa.Call); ok {
-						if o := calleeObj(call); o != nil && o.Name() == "GetOrSet" {
-							found = true
-							cl := sa.classOf(ret.Results[0], ret.Block(), false, 0)
-							if cl == SNonOK {
-								rDup.OK(fnKey(g)+"/duplicate-open", ret.Pos(), "duplicate channel id is a connection error")
-							} else {
-								rDup.Bad(fnKey(g)+"/duplicate-open", ret.Pos(), "duplicate channel id returns a status that %s", cl)
-							}
+		hosts := []*ssa.Function{g}
+		for _, call := range callsIn(g, false) {
+			if h := call.Common().StaticCallee(); h != nil && h.Blocks != nil && h.Pkg == g.Pkg && h != g {
+				hosts = append(hosts, h)
+			}
+		}
+		existsOf := func(cd Cond) (bool, bool) {
+			v, truth := cd.V, cd.Truth
+			for {
+				un, isNot := v.(*ssa.UnOp)
+				if !isNot || un.Op != token.NOT {
+					break
+				}
+				v, truth = un.X, !truth
+			}
+			if ex, ok := v.(*ssa.Extract); ok {
+				if call, ok := ex.Tuple.(*ssa.Call); ok {
+					if o := calleeObj(call); o != nil && o.Name() == "GetOrSet" {
+						return truth, true
+					}
+				}
+			}
+			return false, false
+		}
+		for _, h := range hosts {
+			for _, ret := range returnsOf(h) {
+				for _, cd := range pathConds(ret.Block()) {
+					if truth, ok := existsOf(cd); ok && truth && len(ret.Results) > 0 {
+						found = true
+						cl := sa.classOf(ret.Results[len(ret.Results)-1], ret.Block(), false, 0)
+						if cl == SNonOK {
+							rDup.OK(fnKey(g)+"/duplicate-open", ret.Pos(), "duplicate channel id is a connection error")
+						} else {
+							rDup.Bad(fnKey(g)+"/duplicate-open", ret.Pos(), "duplicate channel id returns a status that %s", cl)
 						}
 					}
 				}
@@ -527,6 +551,23 @@ func runR11_4(c *Ctx, registered *R) {
 		}
 		if !found {
 			rDup.Bad(fnKey(g)+"/duplicate-open", g.Pos(), "no rejection path for an open frame with an existing channel id")
+		}
+		notExists := func(b *ssa.BasicBlock) bool {
+			for _, cd := range pathConds(b) {
+				if truth, ok := existsOf(cd); ok && !truth {
+					return true
+				}
+			}
+			return false
+		}
+		for _, call := range callsIn(g, false) {
+			if o := calleeObj(call); o != nil && o.Name() == "newChannelHandler" {
+				if establishedVia(sa, call.Block(), notExists, 0) {
+					rDup.OK(fnKey(g)+"/duplicate-open/handler", call.Pos(), "the handler is started only for a channel id that was not registered before")
+				} else {
+					rDup.Bad(fnKey(g)+"/duplicate-open/handler", call.Pos(), "a handler is started although the open frame's channel id may already be registered: two handlers serve one id, frames of the first channel reach the second")
+				}
+			}
 		}
 	}
 }
